@@ -35,7 +35,22 @@ def oracle_c01(line, case, stats, allc, lines):
     res = obslog.p_results(case); out = total_out(case)
     if all(r == 'ok' for r in res):
         stats['identity_checked'] = stats.get('identity_checked', 0) + 1
-        if out != data: errs.append('output differs from input: in=%s out=%s' % (data[:300], out[:300]))
+        if case['id'].startswith('um'):
+            # malformed text: what a text handler captured is normalised through decode/encode (the chunk ranges tile the node and
+            # the text a handler read, re-encoded in UTF-8, is what is emitted); every other byte passes through unchanged
+            raw = input_bytes(line); caps = {}
+            for c in case['calls']:
+                for tok in c['events']:
+                    m = _T.match(tok)
+                    if m: caps[(int(m.group(1)), int(m.group(2)))] = bytes.fromhex(m.group(4))
+            exp = b''; pos = 0
+            for (a, b) in sorted(caps):
+                if a < pos: continue
+                exp += raw[pos:a] + caps[(a, b)]; pos = b
+            exp += raw[pos:]
+            stats['malformed_pass_through_checked'] = stats.get('malformed_pass_through_checked', 0) + 1
+            if out != exp.hex(): errs.append('bytes outside captured text changed (or captured text not emitted as read): expected=%s out=%s' % (exp.hex()[:300], out[:300]))
+        elif out != data: errs.append('output differs from input: in=%s out=%s' % (data[:300], out[:300]))
     elif 'err:amb' in res and flag(d, 'strict'):
         stats['ambiguity'] = stats.get('ambiguity', 0) + 1
         if not data.startswith(out): errs.append('output after ParsingAmbiguity is not a prefix of the input')
@@ -446,6 +461,11 @@ def ref_parse_start_tag(raw):
 VOID = {b'area', b'base', b'basefont', b'bgsound', b'br', b'col', b'embed', b'hr', b'img', b'input', b'keygen', b'link', b'meta', b'param', b'source', b'track', b'wbr'}
 def oracle_c16(line, case, stats, allc, lines):
     errs = []
+    if line.startswith('L3 '):
+        # all 36 encodings: by-name lookups of listed attributes (names that round-trip through the encoding in force), harness/src/l3.rs
+        stats['encoded_cases'] = stats.get('encoded_cases', 0) + 1
+        return [x[len('X c16-bad '):] for x in case.get('extra', []) if x.startswith('X c16-bad')][:2] + \
+               [x[len('X c13-bad '):] for x in case.get('extra', []) if x.startswith('X c13-bad a call failed')][:1]
     data = input_bytes(line)
     done = set()
     for c in case['calls']:
@@ -543,6 +563,12 @@ def oracle_c08(line, case, stats, allc, lines):
                         n = bytes.fromhex(o[3:].split(':')[0]); bad = n == b'' or any(ch in n for ch in b' \t\n\r\f/>=')
                         stats['set_attribute'] = stats.get('set_attribute', 0) + 1
                         if bad != (r == 'e'): errs.append('set_attribute(%r) returned %s' % (n, r))
+    # validated names / values / comment text were used: re-parsing the output must give the reference editor's token structure
+    # (the original tokens plus exactly the renamed tag, attribute, comment): the re-tokenisation comparison of oracle_c07
+    if re.search(r'(tn:|sa:|st:|sn:)', line):
+        st2 = {}
+        errs += ['re-parsing the output: ' + e for e in oracle_c07(line, case, st2, allc, lines) if 're-tokenised' in e]
+        stats['retokenised'] = stats.get('retokenised', 0) + st2.get('cases', 0)
     # text content is escaped: the sink never contains an inserted Text chunk with a raw '<'
     out = bytes.fromhex(total_out(case))
     for t in line.split(' '):
